@@ -166,7 +166,7 @@ func (ex *Exec) callFunction(fr *frame, fn *ssa.Function, args []Val, bind []Val
 		}
 	}
 	if ex.inSpec == 0 || true {
-		if ct := ex.Cfg.Contracts[fn]; ct != nil && ex.Cfg.Modular[fn] && len(ex.stack) > 0 && ex.stack[0] != fn {
+		if ct := ex.Cfg.Contracts[fn]; ct != nil && ex.Cfg.Modular[fn] && ex.TopFn != fn {
 			return ex.applyContract(fr, fn, ct, args, ins)
 		}
 	}
